@@ -63,6 +63,14 @@ theorem bounds_independent (s s' : Settings) (now : Int) (l : Layout) (b e b' e'
     rw [← h1, ← h2] at h'
     split at h <;> split at h' <;> simp_all
 
+/-- a period whose two bounds are the same date selects exactly the headings of that date (it is not "empty") -/
+theorem single_day_period (l : Layout) (sb sd : Bytes) (b d : Civil)
+    (hb : Date.parse l sb = some b) (hd : Date.parse l sd = some d) :
+    inInterval (some (Date.instant b)) (some (Date.instant b)) (Date.instant d) = true ↔ d = b := by
+  rw [← Date.instant_eq_iff d b (Date.parse_valid l sd d hd) (Date.parse_valid l sb b hb)]
+  simp [inInterval]
+  omega
+
 /-- today / yesterday / last7 / last30 are resolved against the current date (`--today`) -/
 theorem keywords (now : Int) (l : Layout) :
     timeFromString now l kwToday = .ok now
